@@ -259,6 +259,13 @@ class FortranAST:
                 continue
             parent_scope = self.get_inner_scope(inc.line_number)
             added_entities = inc.scope_objs
+            if file_path not in workspace:
+                # The included file is gone: so are the entities it brought in
+                for obj in added_entities:
+                    parent_scope.children.remove(obj)
+                inc.scope_objs = []
+                inc.file = None
+                continue
             if file_path in workspace:
                 include_file = workspace[file_path]
                 include_ast = include_file.ast
